@@ -137,7 +137,12 @@ class VCSStrategyGit(VCSStrategy):
             if entry
         ]
         # Each entry looks a little like 'submodule.submodule.path\nmy_path'.
-        return {Path(entry.splitlines()[1]) for entry in submodule_entries}
+        # A malformed .gitmodules may hold a path key without a value.
+        return {
+            Path(lines[1])
+            for lines in map(str.splitlines, submodule_entries)
+            if len(lines) > 1
+        }
 
     def is_ignored(self, path: StrPath) -> bool:
         path = relative_from_root(path, self.root)
